@@ -112,6 +112,15 @@ Proof. intro H. unfold Qtrunc. apply Qle_bool_iff in H. now rewrite H. Qed.
 Lemma Qtrunc_neg x : x < 0 -> Qtrunc x = Qceiling x.
 Proof. intro H. unfold Qtrunc. apply Qle_bool_false in H. now rewrite H. Qed.
 
+Lemma Qtrunc_comp x y : x == y -> Qtrunc x = Qtrunc y.
+Proof.
+  intro E. unfold Qtrunc. assert (Qle_bool 0 x = Qle_bool 0 y) as ->.
+  { destruct (Qle_bool 0 x) eqn:A, (Qle_bool 0 y) eqn:B; try reflexivity.
+    - apply Qle_bool_iff in A. rewrite E in A. apply Qle_bool_iff in A. congruence.
+    - apply Qle_bool_iff in B. rewrite <- E in B. apply Qle_bool_iff in B. congruence. }
+  destruct (Qle_bool 0 y); [apply Qfloor_comp|apply Qceiling_comp]; exact E.
+Qed.
+
 Lemma Qtrunc_Z n : Qtrunc (inject_Z n) = n.
 Proof. unfold Qtrunc. destruct (Qle_bool 0 (inject_Z n)); [apply Qfloor_Z | apply Qceiling_Z]. Qed.
 
